@@ -347,23 +347,26 @@ func (d *Dechunker) Next(b []byte) (n int, done *Msg, err error) {
 	h := b[off : off+hs]
 	off += hs
 	start := !s.partial
+	// Everything is parsed into locals first and committed only when the whole chunk is available, so that
+	// Next can be called again with a longer buffer after ErrNeedMore.
+	length, typ, streamID, ext, extField := s.length, s.typ, s.streamID, s.ext, s.extField
 	var field uint32
 	if f <= 2 {
 		field = uint32(h[0])<<16 | uint32(h[1])<<8 | uint32(h[2])
 		if f <= 1 {
-			length := uint32(h[3])<<16 | uint32(h[4])<<8 | uint32(h[5])
-			if !start && length != s.length {
+			l := uint32(h[3])<<16 | uint32(h[4])<<8 | uint32(h[5])
+			if !start && l != s.length {
 				return 0, nil, fmt.Errorf("refrtmp: message length changed mid-message on chunk stream %d", csid)
 			}
-			s.length = length
-			s.typ = h[6]
+			length = l
+			typ = h[6]
 			if f == 0 {
-				s.streamID = uint32(h[7]) | uint32(h[8])<<8 | uint32(h[9])<<16 | uint32(h[10])<<24
+				streamID = uint32(h[7]) | uint32(h[8])<<8 | uint32(h[9])<<16 | uint32(h[10])<<24
 			}
 		}
-		s.ext = field == 0xffffff
+		ext = field == 0xffffff
 	}
-	if s.ext {
+	if ext {
 		if len(b) < off+4 {
 			return 0, nil, ErrNeedMore
 		}
@@ -372,8 +375,21 @@ func (d *Dechunker) Next(b []byte) (n int, done *Msg, err error) {
 		if f <= 2 {
 			field = ev
 		}
-		s.extField = ev
+		extField = ev
 	}
+	have := len(s.buf)
+	if start {
+		have = 0
+	}
+	n = int(length) - have
+	if n > int(d.ChunkSize) {
+		n = int(d.ChunkSize)
+	}
+	if len(b) < off+n {
+		return 0, nil, ErrNeedMore
+	}
+	// commit
+	s.length, s.typ, s.streamID, s.ext, s.extField = length, typ, streamID, ext, extField
 	if start {
 		switch f {
 		case 0:
@@ -403,14 +419,6 @@ func (d *Dechunker) Next(b []byte) (n int, done *Msg, err error) {
 		s.partial = true
 		s.buf = s.buf[:0]
 		s.cur = Msg{Csid: csid, Type: s.typ, StreamID: s.streamID, Timestamp: s.ts}
-	}
-	remain := int(s.length) - len(s.buf)
-	n = remain
-	if n > int(d.ChunkSize) {
-		n = int(d.ChunkSize)
-	}
-	if len(b) < off+n {
-		return 0, nil, ErrNeedMore
 	}
 	s.buf = append(s.buf, b[off:off+n]...)
 	off += n
